@@ -12,7 +12,7 @@ def catalogue():
     sA = SkyCoord(10.0, 20.0, unit='deg', frame='icrs')
     sB = SkyCoord(30.0, -5.0, unit='deg', frame='galactic')
     return {
-        'f1_5': 1.5, 'i3': 3, 'npf2_5': np.float64(2.5), 'f4': 4.0, 'i5': 5,
+        'f1_5': 1.5, 'i2': 2, 'f3_5': 3.5, 'i3': 3, 'npf2_5': np.float64(2.5), 'f4': 4.0, 'i5': 5,
         'zero': 0, 'neg': -2.0, 'nan': float('nan'), 'inf': float('inf'), 'str': 'abc', 'none': None,
         'list': [1.0, 2.0], 'arr0d': np.array(2.0), 'arr1d': np.array([1.0, 2.0]),
         'qpix': 2 * u.pix, 'qm': 1 * u.m, 'qdimless': u.Quantity(0.5), 'qpercent': 3 * u.percent,
